@@ -136,6 +136,8 @@ Holds(c, x) ==
          (IF c.k = "finite" THEN "X"          \* math.isfinite(10 ** 400) raises OverflowError
           ELSE IF c.k \in {"pos", "nonneg"} THEN "T" ELSE IF c.k \in {"neg", "nonpos", "even"} THEN (IF c.k = "even" THEN "T" ELSE "F")
           ELSE IF c.k = "ge" THEN "T" ELSE IF c.k = "le" THEN "F" ELSE "X")
+    [] x.k = "dec" /\ x.sp = "nan" /\ c.k \in {"pos", "neg", "nonneg", "nonpos", "ge", "le"} ->
+         "X"                                  \* ordering a Decimal NaN raises InvalidOperation (a float nan compares False)
     [] c.k = "pos"    -> IF IsReal(x) THEN B3(NumLt(Fin(Zero), NumNum(x))) ELSE "X"
     [] c.k = "neg"    -> IF IsReal(x) THEN B3(NumLt(NumNum(x), Fin(Zero))) ELSE "X"
     [] c.k = "nonneg" -> IF IsReal(x) THEN B3(NumLeq(Fin(Zero), NumNum(x))) ELSE "X"
@@ -586,11 +588,23 @@ StripX(x, ES) ==
 
 (* values made only of the container flavours pane itself produces (an arbitrary Sequence or  *)
 (* Mapping passed through Any is returned as is; what it serialises to is left open)          *)
+(* A NaN (float, Decimal, complex part) is not equal to itself: as a mapping key or set element it   *)
+(* makes "equals x" meaningless (two NaN keys are distinct keys that serialise to the same text), so *)
+(* such values are outside the round-trip properties.                                                *)
+RECURSIVE HasNaN(_)
+HasNaN(x) ==
+  CASE x.k \in {"float", "dec"} -> x.sp = "nan"
+    [] x.k = "complex" -> x.re.sp = "nan" \/ x.im.sp = "nan"
+    [] x.k = "seq"  -> \E i \in DOMAIN x.xs : HasNaN(x.xs[i])
+    [] x.k = "set"  -> \E y \in x.es : HasNaN(y)
+    [] x.k = "sub"  -> HasNaN(x.x)
+    [] x.k = "inst" -> \E i \in DOMAIN x.fs : HasNaN(x.fs[i][2])
+    [] OTHER -> FALSE
 RECURSIVE StdVal(_)
 StdVal(x) ==
   CASE x.k = "seq"  -> x.f # "other" /\ \A i \in DOMAIN x.xs : StdVal(x.xs[i])
-    [] x.k = "map"  -> x.f # "proxy" /\ \A i \in DOMAIN x.ps : StdVal(x.ps[i][1]) /\ StdVal(x.ps[i][2])
-    [] x.k = "set"  -> \A y \in x.es : StdVal(y)
+    [] x.k = "map"  -> x.f # "proxy" /\ \A i \in DOMAIN x.ps : StdVal(x.ps[i][1]) /\ StdVal(x.ps[i][2]) /\ ~HasNaN(x.ps[i][1])
+    [] x.k = "set"  -> \A y \in x.es : StdVal(y) /\ ~HasNaN(y)
     [] x.k = "sub"  -> StdVal(x.x)
     [] x.k = "vol"  -> StdVal(x.x)
     [] x.k = "inst" -> \A i \in DOMAIN x.fs : StdVal(x.fs[i][2])
